@@ -16,6 +16,7 @@ from ..run import Task
 from . import common
 
 PROP_ID = "C20"
+NEEDS_FFT = True
 sym_mods = common.sym_mods
 real_mods = common.real_mods
 
